@@ -292,3 +292,73 @@ def random_patterns(rng, names, maxn=3, p_neg=0.35):
 def re_escape(s):
     import re
     return re.escape(s)
+
+
+# ------------------------------------------------------------- fault worlds
+
+BAD_KINDS = ['fail', 'error', 'setup_error', 'teardown_error',
+             'cleanup_error', 'body_teardown_error', 'body_cleanup_error',
+             'fail_teardown_error', 'subtests', 'uxsuccess', 'setup_fail']
+GOOD_KINDS = ['pass', 'pass', 'pass', 'skip_deco', 'skip_setup', 'skip_body',
+              'xfail']
+
+
+def fault_world(rng, prefix, nlayers=(1, 3), tests=(1, 4), p_bad=0.3,
+                p_unit=0.4, p_import_fault=0.0, good_kinds=None,
+                bad_kinds=None, p_edge=0.45):
+    """World with one class per layer, random outcome kinds."""
+    nl = rng.randint(*nlayers)
+    layers = random_layer_graph(rng, nmax=nl, nmin=nl, p_hook=0.8,
+                                p_edge=p_edge)
+    keys = [ls['name'] for ls in layers]
+    if rng.random() < p_unit:
+        keys = [None] + keys
+    tbl = {}
+    gk = good_kinds or GOOD_KINDS
+    bk = bad_kinds or BAD_KINDS
+    for k in keys:
+        ts = []
+        for i in range(rng.randint(*tests)):
+            kind = rng.choice(bk) if rng.random() < p_bad else rng.choice(gk)
+            t = {'name': 'test_%d' % i, 'kind': kind}
+            if kind == 'subtests':
+                t['subs'] = [rng.choice('FEPS') for _ in
+                             range(rng.randint(1, 4))]
+                if not set(t['subs']) & {'F', 'E'}:
+                    t['subs'][rng.randrange(len(t['subs']))] = \
+                        rng.choice('FE')
+            ts.append(t)
+        tbl[k] = ts
+    spec = simple_world(prefix, layers, tbl)
+    if rng.random() < p_import_fault:
+        what = rng.choice(['import', 'test_suite', 'bad_suite'])
+        m = {'name': '%s_p.tests.test_broken' % prefix,
+             'file': '%s_p/tests/test_broken.py' % prefix,
+             'suite': {'t': 'suite', 'ch': []}}
+        if what == 'import':
+            m['fault'] = {'what': 'raise',
+                          'exc': rng.choice(['ImportError', 'ValueError',
+                                             'SyntaxError'])}
+        elif what == 'test_suite':
+            m['fault_test_suite'] = {'exc': 'ValueError'}
+        else:
+            m['bad_suite'] = True
+        spec['modules'].append(m)
+    return spec
+
+
+def layer_fault_plan(rng, spec, p_su=0.15, p_td=0.15, p_nie=0.0):
+    plan = {}
+    for ls in spec['layers']:
+        h = {}
+        if rng.random() < p_su:
+            h['setUp'] = 'raise:' + rng.choice(['ValueError', 'KeyError',
+                                                'NeedsArgs'])
+        r = rng.random()
+        if r < p_td:
+            h['tearDown'] = 'raise:' + rng.choice(['ValueError', 'OSError'])
+        elif r < p_td + p_nie:
+            h['tearDown'] = 'nie'
+        if h:
+            plan.setdefault('layers', {})[ls['name']] = h
+    return plan
